@@ -455,15 +455,36 @@ def print_all(body, rng=None, style=None, styles_per_syntax=1):
             for sx in SYNTAXES}
 
 
-def printable(body):
-    """None when `body` can be printed in all three syntaxes, else the reason (str)."""
+_REAL_ENTITY = re.compile(r'&dtml[-.][-a-zA-Z0-9_.]*;')
+_EPFS_OPENING = re.compile(r'%\((?![\x00- )=])')
+
+
+def text_forms_tag(s, lookalikes=False):
+    """True when literal text `s` would be (part of) a tag in some syntax.
+
+    lookalikes=False (default): any '%(' or '&dtml' counts (the cautious rule every caller had).
+    lookalikes=True: text that merely LOOKS like the start of a tag is let through:
+      '&dtml' unless it is '&dtml-' / '&dtml.' + characters of entity names only + ';' (a reference needs
+      a name made of letters, digits, '_', '-', '.' and the closing ';' directly behind it);
+      '%(' when directly followed by a blank, ')' or '=' (a tag needs its name directly behind the
+      parenthesis)."""
+    if '<dtml-' in s or '</dtml-' in s or '<!--#' in s:
+        return True
+    if not lookalikes:
+        return '%(' in s or '&dtml' in s
+    return bool(_REAL_ENTITY.search(s) or _EPFS_OPENING.search(s))
+
+
+def printable(body, lookalikes=False):
+    """None when `body` can be printed in all three syntaxes, else the reason (str).
+
+    lookalikes: see text_forms_tag (default False = the behaviour all callers had)."""
     try:
         for sx in SYNTAXES:
             print_template(body, sx)
     except ValueError as e:
         return str(e)
     for n, _ in tast.walk(body):
-        if n.kind == 'text' and ('%(' in n.s or '<dtml-' in n.s or '</dtml-' in n.s
-                                 or '<!--#' in n.s or '&dtml' in n.s):
+        if n.kind == 'text' and text_forms_tag(n.s, lookalikes):
             return 'text forms a tag in some syntax: %r' % n.s[:40]
     return None
